@@ -64,7 +64,26 @@ REDUCED = [
 ]
 
 
-def make_harness(paths: list[tuple[list[tuple], bool]]):
+def slotted_trees() -> list[Any]:
+    """Classes that exist as two class objects under one name (dataclass re-creates a slots=True
+    class): a class step has to resolve to the class the nodes are instances of."""
+    L = lambda v: R("VLeaf", {"v": v})  # noqa: E731
+    return [
+        R("VMany", items=(R("VSlot", {"v": 1}, kid=L(40)), L(41), R("VSlot", {"v": 2}, kid=R("VSlot", {"v": 3})))),
+        R("VSlot", {"v": 4}, kid=R("VMany", items=(R("VSlot", {"v": 5}), L(42)))),
+    ]
+
+
+SLOTTED_PATHS = [
+    ([(True, None, None, "VSlot")], False), ([(False, None, None, "VMany"), (False, "items", None, "VSlot")], False), ([(True, "kid", None, "VSlot")], False),
+    ([(True, None, None, "VSlot"), (True, None, None, "VLeaf")], False), ([(False, None, None, "VSlot")], False), ([(False, None, None, "VSlot")], True),
+    ([(True, "items", "2", "VSlot"), (False, "kid", None, "VBase")], False), ([(True, None, None, "VBase")], False),
+]
+
+
+def make_harness(paths: list[tuple[list[tuple], bool]], trees: list[Any] | None = None):
+    TREES = trees if trees is not None else globals()["TREES"]  # noqa: N806
+
     def harness(e):
         from pyoak.match.xpath import ASTXpath
         from pyoak.tree import Tree
@@ -192,6 +211,7 @@ def spec(tier: str, seed: int) -> Spec:
     paths = path_space(tier)
     chunk = max(1, len(paths) // 64)
     fams = [Family(f"xpaths[{k}:{k + chunk}]", make_harness(paths[k : k + chunk]), variables="selectors: xpath derivation, tree") for k in range(0, len(paths), chunk)]
+    fams.append(Family("slotted-classes", make_harness(SLOTTED_PATHS, slotted_trees()), variables="selectors: xpath, tree (classes created with slots=True)"))
     return Spec(
         families=fams,
         obligation_runners=[_x_runner],
